@@ -152,7 +152,7 @@ def gen_cases(rng, tier):
         params = [dict(p, default=(p["default"] if p["default"] == "<nodefault>" else _jv(p["default"]))) for p in params]
         cases.append({"params": params, "full": _j(full), "surplus": _jl(surplus), "extra": _j(extra), "mode": mode, "tmpl": tmpl,
                       "full2": _j(g2) if g2 is not None else None, "given": rng.random() < 0.9,
-                      "surplus2": _jl(surplus2) if surplus2 is not None else None})
+                      "surplus2": _jl(surplus2) if surplus2 is not None else None, "ctx_left_by_exception": rng.random() < 0.25})
     return cases
 
 
@@ -216,6 +216,18 @@ def run_impl(case):
             return await orig_set(key, value, *a, **k)
         mem.set = spy_set
         dec = cache(ttl=100)(fn) if mode == "decor" else None
+        if case.get("ctx_left_by_exception"):
+            # a key-context block naming the function's own parameters (rewrite mode, as @invalidate uses it) that is left by an
+            # exception earlier in the same task: the key of a later call must depend on that call's arguments only
+            import warnings
+            from cashews.key_context import context as kc_context
+            with warnings.catch_warnings():
+                warnings.simplefilter("ignore")
+                try:
+                    with kc_context(rewrite=True, **{p["name"]: "poison" for p in params if p["kind"] in ("PK", "KO")}):
+                        raise RuntimeError("the block fails")
+                except RuntimeError:
+                    pass
         for gname, full in (("g1", case["full"]), ("g2", case["full2"])):
             if full is None:
                 continue
